@@ -285,14 +285,14 @@ fn c08_p2r_t() {
 }
 
 // ---------------------------------------------------------------------------
-// P3..P6  to_text_changes, folded the way AnalyzedSource::update folds it (lib.rs:77)
+// P3  to_text_changes for ONE content change, folded the way AnalyzedSource::update folds it (lib.rs:77)
 //
-// Cost cut (measured, DESIGN 1.2): with a symbolic text the real to_text_changes
+// Cost cut (measured, DESIGN 1.1): with a symbolic text the real to_text_changes
 // (Vec<ContentChange>::into_iter().map().collect() + String::replace_range) does not finish even for
 // 1 byte of text (488 k symex steps, > 15 min).  Position conversion on arbitrary text is decided
-// by P1/P2; P3..P6 therefore run on a handful of CONCRETE texts that contain every character class
-// (ASCII, 2-byte, astral, LF, CRLF, empty) and keep everything else symbolic: number and kind of
-// changes (ranged / range-less), all positions (also overshooting), the inserted strings.
+// by P1/P2; P3 therefore runs on a handful of CONCRETE texts that contain every character class
+// (ASCII, 2-byte, astral, LF, CRLF, empty) and keep everything else symbolic: the kind of the
+// change (ranged / range-less), all positions (also overshooting), the inserted string.
 // ---------------------------------------------------------------------------
 /// Symbolic choice of the inserted string: "", "x", LF or U+1F600.
 /// All four are slices of ONE literal: a symbolic choice between distinct string literals makes
@@ -448,7 +448,7 @@ fn finish(text: &'static str, changes: Vec<TextDocumentContentChangeEvent>, cur:
     assert!(bytes_eq(&got[..gl], &cur[..cl]), "C08 server text != client text after the notification");
 }
 
-/// P3/P5: one fully symbolic content change (ranged or range-less)
+/// P3: one fully symbolic content change (ranged or range-less)
 fn one_change(text: &'static str) -> [bool; 4] {
     let mut cur = [0u8; CAP];
     let mut cl = load(text, &mut cur);
